@@ -513,9 +513,11 @@ def mutate_record(c: Case, muts: list, out: hlib.RecWriter, src: str, stats: dic
     ok = 'o' if side == 'c' else 'c'
     before = {tuple(e[0]): e for e in wb[ok]}
     delta = [e for e in wa[ok] if before.get(tuple(e[0])) != e][:4]
+    eb = {tuple(e[0]): e for e in other_exp_before}
+    edelta = [e for e in other_exp_after if eb.get(tuple(e[0])) != e][:4]
     first = muts[0]
     out.write({'k': 'mutate', **c.base(), 'mut': first, 'more': muts[1:], 'what': whats, 'exc': exc,
-               'other_exp_before': other_exp_before, 'other_exp_after': other_exp_after,
+               'ed': [digest(other_exp_before), digest(other_exp_after)], 'edelta': edelta,
                'wd': {'o': [digest(wb['o']), digest(wa['o'])], 'c': [digest(wb['c']), digest(wa['c'])]},
                'delta': delta,
                'sig': {**c.sig(src), 'action': first['op'] if first['op'] == 'cell' else first['meth'], 'side': side,
